@@ -163,6 +163,14 @@ Theorem C05_ws_frames : forall c hs l arr,
 Proof. exact ws_stream_delivered. Qed.
 Print Assumptions C05_ws_frames.
 
+(* ... and a payload that is the WebSocket serialisation of a well-formed message (more than 2
+   bytes: coap_read_session ignores shorter frames) is accepted by the PDU parser and decodes to it *)
+Theorem C05_ws_frames_delivered : forall ms,
+  Forall (fun m => msg_wf m /\ 2 < len (serialize WS m)) ms ->
+  ws_observe (map (fun m => WMsg (serialize WS m)) ms) = map (fun m => WDeliver (norm_fields WS m)) ms.
+Proof. exact ws_observe_messages. Qed.
+Print Assumptions C05_ws_frames_delivered.
+
 (* the request libcoap's own client sends is such a handshake for the server-side checks *)
 Theorem C05_ws_request_accepted :
   ws_run (ws_server_cfg ws_fixed) (MHs ws_flags0 []) ws_request = (MHdr [], [WConnected]).
